@@ -8,9 +8,15 @@ ops   : `D:<idx>:<sigOk>:<opens>:<deal>`              ProcessDeal
         `R:<idx>:<sid>:<vidx>:<approved>:<sigOk>:<own deal|->`  ProcessResponse
         `J:<idx>:<wellFormed>:<sigOk>:<vidx>:<deal>`  ProcessJustification
         `T`                                           SetTimeout
+        `S:<commit logs>`                             SecretCommits (own commitments)
+        `C:<idx>:<sid>:<sigOk>:<commit logs>`         ProcessSecretCommits
+        `P:<issuer>:<dealer>:<sigOk>:<deal>`          ProcessComplaintCommits
+        `X:<sid>:<index>:<dealer>:<hasShare>:<I>:<V>:<sigOk>`  ProcessReconstructCommits
+        `K`                                           DistKeyShare (query: output `key:<share>:<commits>` / `err`)
 deal  : as in the `vss` handler
-output: one token per op: `<out>#<certified>#<qual>#<idx>=<verifier state>;…` (verifiers by index;
-        verifier state rendered as by the `vss` handler)
+output: one token per op: `<out>#<certified>#<qual>#<idx>=<verifier state>;…#<finished>#<commitments>#<pending>#
+        <reconstructed>#<state of the node's own VSS dealer>` (maps by index; verifier state rendered as by the `vss` handler; commitments
+        `<idx>=<log>,…`; pending `<idx>=<sender>.<sid>.<I>.<V>,…`)
 -/
 namespace Kyber.Drive
 open Kyber.Vss Kyber.RabinDkg
@@ -27,6 +33,11 @@ private def parseRdkgOp (s : String) : Option RabinDkg.Op :=
   | ["J", idx, wf, sg, vidx, d] => do
     pure (.justification (← hexN idx) (← vssBool01 wf) (← vssBool01 sg) (← hexN vidx) (← vssParseDeal d))
   | ["T"] => some .setTimeout
+  | ["S", cs] => do pure (.secretCommits (← hexNList cs))
+  | ["C", idx, sid, sg, cs] => do pure (.procSecretCommits (← hexN idx) (← hexN sid) (← vssBool01 sg) (← hexNList cs))
+  | ["P", iss, dl, sg, d] => do pure (.procComplaintCommits (← hexN iss) (← hexN dl) (← vssBool01 sg) (← vssParseDeal d))
+  | ["X", sid, idx, dl, hs, si, sv, sg] => do
+    pure (.procReconstruct (← hexN sid) (← hexN idx) (← hexN dl) (← vssBool01 hs) (← hexN si) (← hexN sv) (← vssBool01 sg))
   | _ => none
 
 private def rdkgOutS : RabinDkg.Out → String
@@ -34,6 +45,9 @@ private def rdkgOutS : RabinDkg.Out → String
   | .errIndex => "err:index" | .errDup => "err:dup" | .errNoDeal => "err:nodeal"
   | .errMalformed => "err:malformed" | .errSig => "err:sig"
   | .errVss o => "vss-" ++ vssOutS o | .panic => "panic"
+  | .complaintCommits => "complaintcommits" | .reconstructCommits => "reconstructcommits"
+  | .errQual => "err:qual" | .errSid => "err:sid" | .errCommits => "err:commits" | .errComplaint => "err:complaint"
+  | .errShareIndex => "err:shareindex" | .errNotCertified => "err:notcertified"
 
 private def insNat (k : Nat) : List Nat → List Nat
   | [] => [k]
@@ -48,17 +62,39 @@ private def rdkgStateS (cfg : Cfg) (nd : RabinDkg.Node) : String :=
   let qs := if q.isEmpty then "-" else ",".intercalate (q.map natToHex)
   let vs := (nd.verifiers.foldr insV []).map (fun p => natToHex p.1 ++ "=" ++ vssStateS cfg p.2)
   let vss := if vs.isEmpty then "-" else ";".intercalate vs
-  (if RabinDkg.certified cfg nd then "1" else "0") ++ "#" ++ qs ++ "#" ++ vss
+  let cm := (nd.commitments.foldr insK []).map (fun p => natToHex p.1 ++ "=" ++ hexL p.2)
+  let cms := if cm.isEmpty then "-" else ";".intercalate cm
+  let pd := (nd.pending.foldr insK []).map (fun p => natToHex p.1 ++ "=" ++
+    (if p.2.isEmpty then "-" else ",".intercalate (p.2.map (fun r =>
+      natToHex r.index ++ "." ++ natToHex r.sid ++ "." ++ natToHex r.si ++ "." ++ natToHex r.sv))))
+  let pds := if pd.isEmpty then "-" else ";".intercalate pd
+  let rc := nd.reconstructed.foldr insNat []
+  let rcs := if rc.isEmpty then "-" else ",".intercalate (rc.map natToHex)
+  (if RabinDkg.certified cfg nd then "1" else "0") ++ "#" ++ qs ++ "#" ++ vss ++ "#" ++
+    (if RabinDkg.finished cfg nd then "1" else "0") ++ "#" ++ cms ++ "#" ++ pds ++ "#" ++ rcs ++ "#" ++
+    vssStateS cfg nd.dealer
+where
+  hexL (l : List Nat) : String := if l.isEmpty then "-" else ",".intercalate (l.map natToHex)
+  insK {α : Type} (p : Nat × α) : List (Nat × α) → List (Nat × α)
+    | [] => [p]
+    | x :: xs => if p.1 ≤ x.1 then p :: x :: xs else x :: insK p xs
 
-private def runRdkg (cfg : Cfg) : RabinDkg.Node → List RabinDkg.Op → List String
+private def keyS (cfg : Cfg) (nd : RabinDkg.Node) : String :=
+  match RabinDkg.distKeyShare cfg nd with
+  | none => "err"
+  | some (sh, cs) => "key:" ++ natToHex sh ++ ":" ++ (if cs.isEmpty then "-" else ",".intercalate (cs.map natToHex))
+
+/-- `none` = the query `K`. -/
+private def runRdkg (cfg : Cfg) : RabinDkg.Node → List (Option RabinDkg.Op) → List String
   | _, [] => []
-  | nd, op :: ops =>
+  | nd, none :: ops => (keyS cfg nd ++ "#" ++ rdkgStateS cfg nd) :: runRdkg cfg nd ops
+  | nd, some op :: ops =>
     let (nd', o) := RabinDkg.step cfg nd op
     (rdkgOutS o ++ "#" ++ rdkgStateS cfg nd') :: runRdkg cfg nd' ops
 
 def handleRdkg : List String → String
   | strict :: n :: q :: h :: me :: t :: dsid :: ops =>
-    match vssBool01 strict, hexN n, hexN q, hexN h, hexN me, hexN t, hexN dsid, ops.mapM parseRdkgOp with
+    match vssBool01 strict, hexN n, hexN q, hexN h, hexN me, hexN t, hexN dsid, ops.mapM (fun o => if o = "K" then some none else (parseRdkgOp o).map some) with
     | some st, some n, some q, some h, some me, some t, some dsid, some ops =>
       let cfg : Cfg := { variant := .rabin, n := n, q := q, h := h, strict := st }
       let outs := runRdkg cfg (RabinDkg.init me t dsid) ops
